@@ -55,18 +55,31 @@ example : (XPath.get 60 recs ['r', '/', 'k', '[', 't', 'e', 'x', 't', '(', ')', 
 example : (XPath.get 60 recs ['r', '[', 'k', '=', '3', ']', '/', 'f'] (.str ['D'])).2 = .ok (.str ['D']) := by decide
 example : (XPath.first 60 recs ['r', '[', 'k', '=', '2', ']', '/', 'k'] .none).2 = .ok (.str ['2']) := by decide
 
-/-- C06-a: one numeric `k` in the list turns the whole predicate lookup into a miss -/
+/-- (was finding C06-a, repaired by fix C06-a) a numeric `k` is compared as a number, a text `k` as
+text: `r[k=1]/f` selects both records; a literal that is not a number is just not equal -/
 def recsNum : Val :=
   .dict .n0 [(['r'], .list .plain [.dict .plain [(['k'], .int 1), (['f'], .str ['x'])],
-                                     .dict .plain [(['k'], .str ['1']), (['f'], .str ['y'])]])]
-theorem C06_numeric_cex :
-    (XPath.get 60 recsNum ['r', '[', 'k', '=', '1', ']', '/', 'f'] (.str ['D'])).2 = .ok (.str ['D']) := by decide
+                                     .dict .plain [(['k'], .str ['1']), (['f'], .str ['y'])],
+                                     .dict .plain [(['k'], .int 2), (['f'], .str ['z'])]])]
+theorem C06_numeric_example :
+    (XPath.get 60 recsNum ['r', '[', 'k', '=', '1', ']', '/', 'f'] (.str ['D'])).2 = .ok (.list .n0 [.str ['x'], .str ['y']])
+    ∧ (XPath.get 60 recsNum ['r', '[', 'k', '!', '=', '1', ']', '/', 'f'] (.str ['D'])).2 = .ok (.list .n0 [.str ['z']])
+    ∧ (XPath.get 60 recsNum ['r', '[', 'k', '=', 'a', ']', '/', 'f'] (.str ['D'])).2 = .ok (.str ['D'])
+    ∧ (XPath.get 60 recsNum ['r', '[', 'k', '~', '1', ']', '/', 'f'] (.str ['D'])).2 = .ok (.list .n0 [.str ['y']]) := by
+  decide +kernel
 
-/-- C06-c: the empty literal is compared as the text `False` -/
+/-- (was finding C06-c, repaired by fix C06-c) the empty literal selects the records whose `k` is
+the empty text, in both forms; a record without `k` is not selected -/
 def recsEmpty : Val :=
-  .dict .n0 [(['r'], .list .plain [.dict .plain [(['k'], .str []), (['f'], .str ['x'])]])]
-theorem C06_empty_literal_cex :
-    (XPath.get 60 recsEmpty ['r', '[', 'k', '=', '\'', '\'', ']', '/', 'f'] (.str ['D'])).2 = .ok (.str ['D']) := by decide
+  .dict .n0 [(['r'], .list .plain [.dict .plain [(['k'], .str []), (['f'], .str ['x'])],
+                                     .dict .plain [(['f'], .str ['y'])],
+                                     .dict .plain [(['k'], .str ['a']), (['f'], .str ['z'])]])]
+theorem C06_empty_literal_example :
+    (XPath.get 60 recsEmpty ['r', '[', 'k', '=', '\'', '\'', ']', '/', 'f'] (.str ['D'])).2 = .ok (.list .n0 [.str ['x']])
+    ∧ (XPath.get 60 recsEmpty ['r', '/', 'k', '[', 't', 'e', 'x', 't', '(', ')', '=', '\'', '\'', ']', '/', '.', '.', '/', 'f'] (.str ['D'])).2
+        = .ok (.list .n0 [.str ['x']])
+    ∧ (XPath.get 60 recsEmpty ['r', '[', 'k', '!', '=', '\'', '\'', ']', '/', 'f'] (.str ['D'])).2 = .ok (.list .n0 [.str ['z']]) := by
+  decide +kernel
 
 /-- C06-b: chained predicates return the records of the wrong parent -/
 def orders : Val :=
